@@ -17,6 +17,8 @@ structure St where
   lib : LibCfg := {}
   /-- buffer.go hands slices out as `b[off:]` (open capacity); flips when the 3-index fix lands -/
   bufOpen : Bool := true
+  /-- the package of declarations the `PX` records refer to (C13) -/
+  pk : Pkg := { name := "", path := "", decls := [] }
   /-- "" = the property's own acceptance; "nopanic" = C02: an outcome is accepted iff it is not a panic -/
   mode : String := ""
 
@@ -647,3 +649,70 @@ def opRegistry (st : St) (head outToks : List String) : String :=
        else "dev-viol typename=" ++ tn ++ " registry=" ++ reg
      | none => "skip unresolved-input")
   | _, _ => "skip bad-record"
+
+/-! ### C13: parser models against the real parsers -/
+
+partial def parseTExpr : List String → Option (TExpr × List String)
+  | "N" :: n :: rest => some (.name n, rest)
+  | "P" :: rest => do let (e, r) ← parseTExpr rest; pure (.star e, r)
+  | "L" :: rest => do let (e, r) ← parseTExpr rest; pure (.slice e, r)
+  | "M" :: rest => do
+    let (k, r) ← parseTExpr rest
+    let (v, r) ← parseTExpr r
+    pure (.map k v, r)
+  | "S" :: n :: rest => do
+    let cnt ← n.toNat?
+    let rec go (k : Nat) (acc : List (String × TExpr)) (toks : List String) : Option (List (String × TExpr) × List String) :=
+      if k == 0 then some (acc.reverse, toks) else
+      match toks with
+      | fname :: toks' => do
+        let (e, r) ← parseTExpr toks'
+        go (k - 1) ((fname, e) :: acc) r
+      | [] => none
+    let (fs, r) ← go cnt [] rest
+    pure (.struct fs, r)
+  | _ => none
+
+/-- Erase what the model does not track (`pkgi` is not part of `Info`; nothing to erase) — kept for symmetry. -/
+def showNodeBrief (n : Node) : String := n.typn ++ "/" ++ n.typu ++ "/" ++ n.name ++ "/" ++ n.info.pkg
+
+partial def firstNodeDiff (a b : Node) (path : String) : Option String :=
+  if !(a.info == b.info) then some s!"{path}: model {repr a.info} vs real {repr b.info}" else
+  match a, b with
+  | .struct _ ca, .struct _ cb =>
+    if ca.length != cb.length then some s!"{path}: {ca.length} vs {cb.length} fields" else
+    (ca.zip cb).findSome? fun (x, y) => firstNodeDiff x y (path ++ "." ++ x.name)
+  | .map _ k1 v1, .map _ k2 v2 => (firstNodeDiff k1 k2 (path ++ "[key]")).orElse fun _ => firstNodeDiff v1 v2 (path ++ "[val]")
+  | .slice _ e1, .slice _ e2 => firstNodeDiff e1 e2 (path ++ "[]")
+  | .basic _, .basic _ => none
+  | _, _ => some s!"{path}: different node types"
+
+/-- Number of declared (named) types mentioned inside the literal (unnamed) part of a type expression. -/
+partial def namedInLiteral (p : Pkg) : TExpr → Nat
+  | .name n => if (p.lookup n).isSome then 1 else 0
+  | .star e | .slice e => namedInLiteral p e
+  | .map k v => namedInLiteral p k + namedInLiteral p v
+  | .struct _ => 0
+
+/-- PX <name> | <ast-parser node> | <types-parser node or -> : both parser models against both real dumps. -/
+def opParsers (pk : Pkg) (head astToks pkgToks : List String) : String :=
+  match head with
+  | [_, name] =>
+    let fuel := 64
+    (match parseAstDecl pk name fuel, parsePkgDecl pk name fuel, parseNode astToks with
+     | some ma, some mp, some (ra, _) =>
+       let realPkg : Option Node := if pkgToks == ["-"] then none else (parseNode pkgToks).map (·.1)
+       match firstNodeDiff ma ra name with
+       | some d => "dev-ok ast-model: " ++ d
+       | none =>
+         (match realPkg with
+          | none => if ma == mp then "agree" else "known parser-typename-qualification"
+          | some rp =>
+            match firstNodeDiff mp rp name with
+            | some d => "dev-ok types-model: " ++ d
+            | none =>
+              -- C13: both parsers must give the same tree
+              if ra == rp then "agree"
+              else "known parser-typename-qualification")
+     | _, _, _ => "skip unresolved-input")
+  | _ => "skip bad-record"
